@@ -156,7 +156,8 @@ def rmAt (c : Conf) (i : Nat) (s : State) : State :=
 
 /-- The loop of `rmDynamicLease`: `pre = s.leases[:i]`, `todo = s.leases[i:]`.
 The flag is `true` for "static lease already exists"; the removals made before
-the error stay. -/
+the error stay.  A dynamic lease of another client that carries the hostname of
+the new lease loses it, together with its index entry. -/
 def rmDynLoop (c : Conf) (mac : Bytes) (ip : Nat) (host : Bytes) :
     List Lease → List Lease → State → State × Bool
   | pre, [], s => ({ s with leases := pre }, false)
@@ -164,9 +165,11 @@ def rmDynLoop (c : Conf) (mac : Bytes) (ip : Nat) (host : Bytes) :
     if l.mac == mac || l.ip == ip then
       if l.static then ({ s with leases := pre ++ l :: rest }, true)
       else rmDynLoop c mac ip host pre rest (rmSide c l (pre ++ l :: rest) s)
-    else
-      let l' := if !l.static && l.host == host then { l with host := [] } else l
-      rmDynLoop c mac ip host (pre ++ [l']) rest s
+    else if !l.static && l.host == host then
+      -- the hostname goes to the new lease; the index entry goes with it if it is this lease's
+      let s := if l.host ≠ [] ∧ s.hosts l.host = some l.id then s.delHost l.host else s
+      rmDynLoop c mac ip host (pre ++ [{ l with host := [] }]) rest s
+    else rmDynLoop c mac ip host (pre ++ [l]) rest s
 
 def rmDynamicLease (c : Conf) (mac : Bytes) (ip : Nat) (host : Bytes) (s : State) : State × Bool :=
   rmDynLoop c mac ip host [] s.leases s
@@ -388,8 +391,8 @@ def handleRelease (c : Conf) (mac : Bytes) (reqPresent : Bool) (reqIP ciaddr : N
 def addErrName : AddErr → String
   | .subnet => "subnet" | .range => "range" | .dupHost => "dupHost"
 
-/-- `AddStaticLease` → `updateStaticLease`.  An error after `rmDynamicLease`
-has changed the table returns WITHOUT storing the database. -/
+/-- `AddStaticLease` → `updateStaticLease`.  An error of `updateStaticLease`
+(possibly after `rmDynamicLease` has changed the table) stores the database too. -/
 def addStatic (O : Oracle) (c : Conf) (mac : Bytes) (ip : Nat) (rawHost : Bytes) (s : State) : State × Reply :=
   if ip = c.gw then (s, Reply.api "gateway")
   else if !validMAC mac then (s, Reply.api "badMAC")
@@ -403,11 +406,11 @@ def addStatic (O : Oracle) (c : Conf) (mac : Bytes) (ip : Nat) (rawHost : Bytes)
     | none => (s, Reply.api "hostname")
     | some host =>
       match rmDynamicLease c mac ip host s with
-      | (s, true) => (s, Reply.api "staticExists")
+      | (s, true) => (s.store, Reply.api "staticExists")
       | (s, false) =>
         let (id, s) := s.fresh
         match addLease c { id := id, mac := mac, ip := ip, host := host, static := true, exp := 0 } s with
-        | .error e => (s, Reply.api (addErrName e))
+        | .error e => (s.store, Reply.api (addErrName e))
         | .ok s => (s.store, Reply.api "ok")
 
 def macOfId (s : State) (id : Option Nat) : Option Bytes := (id.bind s.deref).map (·.mac)
